@@ -2,14 +2,21 @@
 
 Tie: (a) the casenum if-chains and the `switch (casenum)` of b_unpack are regenerated from
 src/c/_cffi_backend.c into coq/C18/Gen.v (fail closed) and the theorems are re-proved against them;
+(a') the wide-character helpers _my_PyUnicode_FromChar16/32 (and the other functions of
+src/c/wchar_helper_3.h) are regenerated into coq/C15/Gen.v (tools/props/c15_regen.py, fail closed: a body
+that no longer has the recorded shape is a broken obligation) and the whole-run = unit-by-unit theorems are
+re-proved against them;
 (b) ffi.unpack(p, n), [p[i] for i in range(n)] and the Coq model are run on the same memory for every
 item type x biased-random contents x every start misalignment 0..15 x lengths 0, 1, many, through
-pointer cdata and through array cdata (from_buffer).
+pointer cdata and through array cdata (from_buffer); for char16_t / char32_t / wchar_t additionally every
+code point with a special meaning to codecs (BOMs, surrogates, limits) alone, at the first / middle / last
+position of a run and in every ordered pairing.  The predicate (unpack == joined element-wise reading,
+same exception class otherwise) is decided on the implementation for every case, whatever the classes.
 """
 import os
 
 from lib import vlib
-from props import c18_regen
+from props import c15_regen, c18_regen
 
 ID = "C18"
 
@@ -43,6 +50,8 @@ MODEL_SIZES = {"signed char": 1, "short": 2, "int": 4, "long": 8, "long long": 8
 
 
 def regen(ctx):
+    # the wide-character helpers (shared with C15; same text from both checks)
+    c15_regen.regen_file(vlib, ctx, "C18")
     path = os.path.join(vlib.COQ, "C18", "Gen.v")
     try:
         src = open(os.path.join(vlib.REPO, "src", "c", "_cffi_backend.c")).read()
@@ -58,10 +67,9 @@ def regen(ctx):
             with open(path, "w") as f:
                 f.write(text)
         ctx.translator("C18/Gen.v", "regenerated")
-    # the model is evaluated through Gen.vo (also by --replay, which skips the proof re-check)
-    vo = path + "o"
-    if not os.path.exists(vo) or os.path.getmtime(vo) < os.path.getmtime(path):
-        vlib.coq_make(["C18/Gen.vo"])
+    # the model is evaluated through Gen.vo (also by --replay, which skips the proof re-check); make
+    # rebuilds C15/Gen.vo and C18/Model.vo first when the regenerated helpers changed
+    vlib.coq_make(["C18/Gen.vo"])
 
 
 # ------------------------------------------------------------------------------------------ generator
@@ -101,12 +109,14 @@ def rand_item(rng, ctype, kind, size):
         return mant.to_bytes(8, "little") + se.to_bytes(2, "little") + bytes(rng.getrandbits(8) for _ in range(6))
     if kind == "KChar 2":
         if r < 0.6:
-            u = rng.choice([0xD800, 0xDBFF, 0xDC00, 0xDFFF, 0xD7FF, 0xE000, 0, 0x41, 0xFFFF, 0xD83D, 0xDE00])
+            u = rng.choice([0xD800, 0xDBFF, 0xDC00, 0xDFFF, 0xD7FF, 0xE000, 0, 0x41, 0xFFFF, 0xD83D, 0xDE00,
+                            0xFEFF, 0xFFFE])
             return u.to_bytes(2, "little")
     if kind == "KChar 4":
         if r < 0.6:
-            u = rng.choice([0, 0x41, 0xD800, 0xDFFF, 0xFFFF, 0x10000, 0x10FFFF, 0x1F600, 0xE9, 0x100] +
-                           ([0x110000, 0xFFFFFFFF, 0x80000000] if r < 0.08 else []))
+            u = rng.choice([0, 0x41, 0xD800, 0xDBFF, 0xDC00, 0xDFFF, 0xFFFF, 0x10000, 0x10FFFF, 0x1F600, 0xE9,
+                            0x100, 0xFEFF, 0xFFFE] +
+                           ([0x110000, 0xFFFFFFFF, 0x80000000, 0xFFFE0000] if r < 0.08 else []))
             return u.to_bytes(4, "little")
         if r < 0.9:
             return rng.randrange(0x110000).to_bytes(4, "little")
@@ -124,6 +134,36 @@ def gen_case(rng, ctype, n=None, k=None, mode=None):
     content = b"".join(rand_item(rng, ctype, kind, size) for _ in range(n))
     content += bytes(rng.getrandbits(8) for _ in range(rng.choice([0, 1, 5])))     # memory after the items
     return dict(ctype=ctype, k=k, n=n, mode=mode, content=content.hex())
+
+
+# code points with a special meaning to codecs (byte-order marks in both byte orders, the surrogate range
+# limits, the last BMP / first astral / last code point, the first value that is no code point, all-ones)
+W32 = [0, 0xFEFF, 0xFFFE, 0xFFFE0000, 0xD800, 0xDBFF, 0xDC00, 0xDFFF, 0xFFFF, 0x10000, 0x10FFFF, 0x110000,
+       0xFFFFFFFF]
+W16 = [0, 0xFEFF, 0xFFFE, 0xD800, 0xDBFF, 0xDC00, 0xDFFF, 0xFFFF]
+
+
+def wide_runs(specials):
+    """each special alone, at the first / middle / last position of a run; every ordered pair of specials
+    alone and inside a run"""
+    a, b = 0x41, 0x42
+    runs = []
+    for s in specials:
+        runs += [[s], [s, a, b], [a, s, b], [a, b, s]]
+    for s1 in specials:
+        for s2 in specials:
+            runs += [[s1, s2], [a, s1, s2, b]]
+    return runs
+
+
+def wide_cases():
+    cases = []
+    for ctype, size, specials in (("char32_t", 4, W32), ("wchar_t", 4, W32), ("char16_t", 2, W16)):
+        for j, run in enumerate(wide_runs(specials)):
+            content = b"".join(u.to_bytes(size, "little") for u in run) + b"\x5a" * (j % 3)
+            cases.append(dict(ctype=ctype, k=(0, size, 1, 0, 8)[j % 5], n=len(run),
+                              mode="array" if j % 7 == 3 else "ptr", content=content.hex()))
+    return cases
 
 
 def generate(ctx):
@@ -144,6 +184,7 @@ def generate(ctx):
     cases.append(dict(ctype="char16_t", k=0, n=2, mode="ptr", content="3dd800de"))
     cases.append(dict(ctype="_Bool", k=0, n=4, mode="ptr", content="00010201"))
     cases.append(dict(ctype="short", k=0, n=2, mode="ptr", content="feff0180"))
+    cases += wide_cases()
     groups = {}
     for t in TYPES:
         groups.setdefault(t[1].split()[0], []).append(t[0])
@@ -190,9 +231,12 @@ def lit_result(r):
     if tag == "str":
         return "RStr " + zl(r[1])
     if tag == "err":
+        # the predicate (same class on both sides) was decided on the implementation; for the comparison with
+        # the model every class the model does not name is OtherException (which no model function returns)
         e = r[1]
         if e in ("ValueError", "TypeError", "SystemError", "RuntimeError", "IndexError"):
             return "RErr " + e
+        return "RErr OtherException"
     return None
 
 
@@ -284,28 +328,45 @@ def evaluate(ctx, cases):
 def run(ctx):
     ctx.cov["rule"] = ("every item type of TYPES (all integer widths and signednesses, _Bool, float/double/long double, "
                        "complex, char/char16_t/char32_t/wchar_t, enums, data/function pointers, struct/union/array items) "
-                       "x start misalignment 0..15 x n in {0,1,3,4} systematically, then random (type, misalignment, "
-                       "n<=17, pointer or from_buffer array cdata) with contents biased to boundary patterns (sign bits, "
-                       "_Bool bytes other than 0/1, NaN/denormal, surrogates, code points > 0x10FFFF). Each case: "
-                       "ffi.unpack vs [p[i]...] on the implementation (the predicate), and both vs the Coq model. "
-                       "Non-trivial = n > 0; distinct by (type, misalignment, n, content).")
+                       "x start misalignment 0..15 x n in {0,1,3,4} systematically; char32_t, wchar_t, char16_t: every "
+                       "code point special to codecs (0, U+FEFF, U+FFFE, 0xFFFE0000, D800/DBFF/DC00/DFFF, U+FFFF, "
+                       "U+10000, U+10FFFF, 0x110000, 0xFFFFFFFF) as a single-element run, at the first / middle / last "
+                       "position of a 3-run, and every ordered pair of them alone and inside a 4-run; then random (type, "
+                       "misalignment, n<=17, pointer or from_buffer array cdata) with contents biased to boundary "
+                       "patterns (sign bits, _Bool bytes other than 0/1, NaN/denormal, surrogates, BOMs, code points > "
+                       "0x10FFFF). Each case: ffi.unpack vs joined [p[i]...] on the implementation, values or exception "
+                       "CLASS, any class (the predicate), and both vs the Coq model (classes the model does not name "
+                       "are compared as OtherException). Non-trivial = n > 0; distinct by (type, misalignment, n, content).")
     ctx.assumptions += [
         "hand-written model C18/Model.v of convert_to_object, cdata indexing and the b_unpack loop; tied by this run's "
         "differential test; the fast-path tables C18/Gen.v are regenerated from the source (c18_regen.py, trusted)",
+        "the wide-character helpers (C15/Gen.v) are regenerated from src/c/wchar_helper_3.h by c15_regen.py (trusted: token "
+        "templates of the recorded control structure + a C-expression translator; any other shape is a broken obligation)",
         "x86-64 SysV sizes and little-endian layout (sizes compared with ffi.sizeof in this run)",
         "float->double widening as implemented by the CPU (model f32_to_f64 compared on special and random patterns)",
-        "CPython: PyUnicode_FromKindAndData refuses code points > 0x10FFFF with SystemError"]
+        "CPython (C15/Spec.v): PyUnicode_FromKindAndData builds a str with exactly the given items (no BOM / surrogate "
+        "interpretation) and refuses code points > 0x10FFFF with SystemError; PyUnicode_New + item-wise fill; tied by "
+        "the differential run on the codec-special code points"]
     evaluate(ctx, generate(ctx))
 
 
 MANIFEST = dict(
-    technique="Coq proof over a model whose fast-path tables are regenerated from b_unpack's source + differential "
-              "correspondence (unpack vs element-wise vs model) over all item types, misalignments and lengths",
+    technique="Coq proof over a model whose fast-path tables (b_unpack) and wide-character helpers (wchar_helper_3.h) are "
+              "regenerated from the C source + differential correspondence (unpack vs element-wise vs model) over all "
+              "item types, misalignments, lengths and codec-special wide-character contents",
     text="Proof: for every item kind the backend can create (all but char16_t), every alignment, start address, memory "
          "content and n, the model of ffi.unpack returns exactly the joined element-wise reading, exceptions included "
          "(C18_unpack_elementwise, C18_unpack_error_is_first); the casenum chains and switch cases are regenerated from "
-         "the C source on every run and must pass the decidable check tables_ok. char16_t: equal when no surrogate pair "
-         "is adjacent, always equal as UTF-16, strict equality refuted (known finding char16_pair).",
-    note="Trusted: Coq kernel; hand model C18/Model.v (tied by differential testing); c18_regen.py; x86-64 layout; CPU "
-         "float widening; CPython unicode constructors. Theorems closed under the global context.",
+         "the C source on every run and must pass the decidable check tables_ok. Wide characters, on the regenerated "
+         "_my_PyUnicode_FromChar32/16, for ALL unit lists: char32_t/wchar_t whole-run conversion = concatenation of the "
+         "per-unit conversions, the identity on code units, SystemError exactly on a unit > 0x10FFFF "
+         "(C18_char32_whole_is_elementwise, _identity, _ok, _error); char16_t whole-run and per-unit conversion differ "
+         "exactly when a high surrogate is immediately followed by a low one (C18_char16_whole_vs_elementwise, "
+         "C18_char16_differs_iff_adjacent_pair, C18_char16_unpack_iff; known finding char16_pair), are always the same "
+         "UTF-16 text, and the str allocated by the helper is filled exactly (C18_char16_allocation_exact). Run: the "
+         "predicate is decided on the implementation for every case, incl. every codec-special code point in every "
+         "position and pairing.",
+    note="Trusted: Coq kernel; hand model C18/Model.v (tied by differential testing); c18_regen.py and c15_regen.py "
+         "(fail closed); x86-64 layout; CPU float widening; CPython unicode constructors as specified in C15/Spec.v. "
+         "Theorems closed under the global context.",
     design_ref="DESIGN.md §4 C18")
